@@ -5,7 +5,7 @@ ID = 'C14'
 PKG = '.'
 HARNESS_FILES = ['pkg/frame/zz_verif_common.go', 'pkg/frame/zz_verif_dialect.go', 'pkg/frame/zz_verif_c02.go',
                  'pkg/frame/zz_verif_c05.go', 'pkg/frame/zz_verif_c06.go', 'pkg/frame/zz_verif_export.go',
-                 'pkg/frame/zz_verif_msgs.go', 'pkg/timednetconn/zz_verif_c14.go', 'zz_verif_node.go', 'zz_verif_c14.go', 'zz_verif_c10.go', 'zz_verif_life.go']
+                 'pkg/frame/zz_verif_msgs.go', 'pkg/timednetconn/zz_verif_c14.go', 'zz_verif_node.go', 'zz_verif_c14.go', 'zz_verif_c10.go', 'zz_verif_c11.go', 'zz_verif_life.go']
 KERNEL_PKGS = ['.']
 CLOCK_PKGS = ['.', 'pkg/timednetconn']
 ROOTS = [r'verifHarness_C14']
